@@ -5,9 +5,11 @@ CONSTANTS
   MaxFaults = 2
   MaxCrash = 1
   MaxEnv = 1
-  MaxAttempts = 2
-  SettleRuns = 3
+  MaxAttempts = 3
+  SettleRuns = 4
   EnvAllowed = {"spokevanish", "hubvanish", "hubcompact", "foreign", "foreignraw"}
+  Chunks = 3
+  PutAllowed = {"dropBefore", "dropAfter", "short", "shortDrop", "corrupt", "backpressure", "idxfail"}
   MinRuns = 0
   Emit = FALSE
 VIEW View
